@@ -1901,6 +1901,51 @@ std::string Generator::GeneratorImpl::generateInitialisationCode(const AnalyserV
            + mProfile->commandSeparatorString() + "\n";
 }
 
+std::string Generator::GeneratorImpl::generateVariableInitialisationCode(const AnalyserVariablePtr &variable,
+                                                                         std::vector<AnalyserVariablePtr> &handledVariables) const
+{
+    // Generate the code that initialises the given constant, or the given
+    // computed constant or algebraic variable that has an initial value or that
+    // is computed using an NLA system (initial guess), unless it has already
+    // been handled.
+
+    if (std::find(handledVariables.begin(), handledVariables.end(), variable) != handledVariables.end()) {
+        return {};
+    }
+
+    handledVariables.push_back(variable);
+
+    switch (variable->type()) {
+    case AnalyserVariable::Type::CONSTANT:
+    case AnalyserVariable::Type::COMPUTED_CONSTANT:
+    case AnalyserVariable::Type::ALGEBRAIC: {
+        auto initialisingVariable = variable->initialisingVariable();
+
+        if (initialisingVariable != nullptr) {
+            // If the variable is initialised using another variable then that
+            // other variable must be initialised first.
+
+            std::string res;
+
+            if (!isCellMLReal(initialisingVariable->initialValue())) {
+                res += generateVariableInitialisationCode(analyserVariable(owningComponent(initialisingVariable)->variable(initialisingVariable->initialValue())),
+                                                          handledVariables);
+            }
+
+            return res + generateInitialisationCode(variable);
+        }
+
+        if (variable->equation(0)->type() == AnalyserEquation::Type::NLA) {
+            return generateZeroInitialisationCode(variable);
+        }
+
+        return {};
+    }
+    default: // Other types we don't care about.
+        return {};
+    }
+}
+
 std::string Generator::GeneratorImpl::generateEquationCode(const AnalyserEquationPtr &equation,
                                                            std::vector<AnalyserEquationPtr> &remainingEquations,
                                                            std::vector<AnalyserEquationPtr> &equationsForDependencies,
@@ -2043,26 +2088,15 @@ void Generator::GeneratorImpl::addImplementationInitialiseVariablesMethodCode(st
         //       guess. We use an initial guess of zero, which is fine since
         //       such an NLA system has only one solution.
 
+        // Note: a variable that is initialised using another variable is
+        //       initialised after that other variable, wherever it comes in our
+        //       list of variables.
+
         std::string methodBody;
+        std::vector<AnalyserVariablePtr> handledVariables;
 
         for (const auto &variable : mModel->variables()) {
-            switch (variable->type()) {
-            case AnalyserVariable::Type::CONSTANT:
-                methodBody += generateInitialisationCode(variable);
-
-                break;
-            case AnalyserVariable::Type::COMPUTED_CONSTANT:
-            case AnalyserVariable::Type::ALGEBRAIC:
-                if (variable->initialisingVariable() != nullptr) {
-                    methodBody += generateInitialisationCode(variable);
-                } else if (variable->equation(0)->type() == AnalyserEquation::Type::NLA) {
-                    methodBody += generateZeroInitialisationCode(variable);
-                }
-
-                break;
-            default: // Other types we don't care about.
-                break;
-            }
+            methodBody += generateVariableInitialisationCode(variable, handledVariables);
         }
 
         // Initialise our true constants.
